@@ -22,7 +22,13 @@ def build_app(explicit_parser=False):
     class Handler(object):
         def handle(self, args, io, command):
             calls.append([command.full_name, sorted(args.arguments().items()), sorted((k, str(v)) for k, v in args.options().items())])
-            io.write_line("ran <info>%s</info>" % command.name)
+            # a handler may customise the formatter of ITS run (the tag <hl> is unknown otherwise and printed as it stands)
+            if command.name == "baz" and args.is_argument_set("y") and args.argument("y") == "w":
+                from clikit.api.formatter import Style
+
+                io.formatter.add_style(Style("hl").fg("red").bold())
+                io.error_output.formatter.add_style(Style("hl").fg("red").bold())
+            io.write_line("ran <info>%s</info> <hl>mark</hl>" % command.name)
             io.error_line("log %s" % command.name, 2)  # VERBOSE only
             return 0
 
